@@ -3,7 +3,7 @@ CONSTANTS
   Kinds = {"dup"}
   Names = {"x"}
   Locs = {"a", "b"}
-  Spans = {1, 2}
+  SpanIds = {1, 2}
   MaxPool = 6
   MaxLeaves = 12
   MaxLoc = 99
